@@ -35,7 +35,8 @@ MANIFEST = {
             "separated along each signed coordinate axis (+ one generic direction) by 2r_s+2p+f(r_b-r_s), f in "
             "{-0.1,.05,.25,.5,.75,.95,1.1} per probe, single-frame windows} x n_sphere_points {1,2,10,24,100,960} x probe {0,0.14,0.3} x "
             "change_radii {None,{C:0.2},{C:0.26}} x mode {atom,residue} x atom_indices (ALL subsets incl. empty and None for "
-            "<= 5 atoms, a 10-entry menu above) x every contiguous window of 1..3 frames (quick: 2 axis directions; "
+            "<= 5 atoms plus unsorted / descending / shuffled lists, a menu above that incl. unsorted lists whose last-first+1 equals "
+            "their length without being that block) x every contiguous window of 1..3 frames (quick: 2 axis directions; "
             "thorough: 6 directions, the extra pairs Fr-Li and S-H, and 3 rotated copies of every multi-atom structure).  Each call of md.shrake_rupley is compared with an independent "
             "float64 evaluation on the same point set: exact accessible-point count per atom (area compared under a "
             "16 eps32 4piR^2 model), analytic 4pi(r+p)^2 and two-sphere cap area within the measured 1/sqrt(n) spiral "
@@ -89,6 +90,16 @@ def _all_subsets(n):
     return out
 
 
+def _unsorted_small(n):
+    """Order matters to nothing in the documentation: unsorted selections of small structures."""
+    u = [[0, 4, 2], [1, 4, 3], [4, 3, 2, 1, 0], [2, 1, 3], [4, 0], [3, 0, 1], [2, 0], [1, 0], [2, 0, 1], [0, 2, 1]]
+    out = []
+    for x in u:
+        if max(x) < n and x not in out:
+            out.append(x)
+    return out
+
+
 def _menu_subsets(atoms):
     n = len(atoms)
     res = [a[2] for a in atoms]
@@ -96,6 +107,9 @@ def _menu_subsets(atoms):
     m = [None, [], [0], [n - 1], list(range(n)), list(range(0, n, 2)), heavy, list(range(1, n)),
          [i for i in range(n) if res[i] == 0], [i for i in range(n) if res[i] == max(res)],
          [i for i in range(n) if res[i] == 0][-2:] + [i for i in range(n) if res[i] == 1][:2]]
+    # unsorted lists: last-first+1 == len although the set is not that contiguous block; descending; shuffled blocks
+    m += [u for u in ([0, 5, 2], [3, 12, 7, 6], [10, 17, 3, 13], [8, 21, 1, 11], [4, 2, 3], [6, 9, 8, 7], list(range(n - 1, -1, -1)),
+                      [n - 1, 0], [5, 1, 9, 2, 7]) if max(u) < n]
     seen, out = set(), []
     for s in m:
         k = None if s is None else tuple(s)
@@ -153,13 +167,13 @@ def build_structures(ctx):
     for els in (("C", "N", "O"), ("S", "H", "C")):
         fr = [np.array(a) + 1.2 + j3[k] for k, a in enumerate(arr)]
         atoms = [("A1", els[0], 0), ("A2", els[1], 0), ("A3", els[2], 1)]
-        S.append(_struct("three-" + "".join(els), "three", atoms, ["UNK", "UNK"], fr, _all_subsets(3)))
+        S.append(_struct("three-" + "".join(els), "three", atoms, ["UNK", "UNK"], fr, _all_subsets(3) + _unsorted_small(3)))
     # C'. five-atom cluster (formamide-like O=C(H)-N(H)...), 2 residues, all 33 selections
     base5 = np.array([[0, 0, 0], [0.122, 0, 0], [-0.055, -0.093, 0], [-0.06, 0.118, 0], [-0.16, 0.12, 0.01]]) + 0.9
     j5 = grids.jitter(20, 3, 0.03, seed).reshape(4, 5, 3)
     # (atoms of a residue are contiguous: Topology.atoms iterates residue by residue)
     S.append(_struct("five", "small", [("C", "C", 0), ("O", "O", 0), ("H1", "H", 0), ("N", "N", 1), ("H2", "H", 1)],
-                     ["UNK", "UNK"], [base5 + j5[k] for k in range(4)], _all_subsets(5)))
+                     ["UNK", "UNK"], [base5 + j5[k] for k in range(4)], _all_subsets(5) + _unsorted_small(5)))
     # D. hand-built dipeptide-like molecule ALA-GLY(+OXT), 13 atoms
     dip = [("N", "N", 0, (0.000, 0.000, 0.000)), ("H", "H", 0, (-0.033, -0.094, 0.000)),
            ("CA", "C", 0, (0.145, 0.000, 0.000)), ("HA", "H", 0, (0.181, -0.051, 0.089)),
